@@ -7,6 +7,7 @@ from typing import List
 
 from harness.lib.core import VERIF, Ctx, lean_lock, load_findings, run_driver, shrink_ops, sig_matches
 from harness.extract import link as x_link
+from harness.extract import link_body as x_body
 from harness.rigs import link as rig
 
 MANIFEST = {
@@ -42,7 +43,17 @@ MANIFEST = {
             "membership functions have strict shapes, and the window between the size read by the admission test and the size read by the "
             "accounting contains no write on the frame (C18_gen_size_window). The rig drives remove/add/clear directly, empties and "
             "repopulates every frequency inside a tick, moves an access point to another frequency in mid-episode, checks that no load "
-            "decreases inside a tick, and compares a wireless access point's answer with the acceptance model.",
+            "decreases inside a tick, and compares a wireless access point's answer with the acceptance model. Round 7: the tick of "
+            "the property is the STEP of an episode: episode / runSteps (tick, the agents' traffic, apply_timestep's traffic) with "
+            "C18_every_step_carried_le_bandwidth, C18_every_step_starts_at_zero, and the call orders the property excludes proved to "
+            "violate it (reset behind the agents' actions; reset dropped); the three places the step loop is written are read from "
+            "the source (C18_gen_step_loops, C18_gen_timestep_drivers); the rig checks every env.step / game.step as a whole (reset "
+            "first and once, first send on every link finds load 0 - scenario cases start from the load construction left -, bytes "
+            "carried in the step within capacity). The budget of a wireless channel is that of the PHYSICAL channel (hz): "
+            "C18_physical_channel_le_capacity for any number of names and access points, C18_budget_per_name_counterexample, the "
+            "index of the budget read from the source (C18_gen_air_keys); the rig keeps its own per-hz sum of what was handed to "
+            "AirSpace.transmit and never depends on the shape of the implementation's dict (an unreadable container is a broken "
+            "correspondence obligation followed by search, not an internal error).",
     "note": "C18-specific: frame sizes (JSON length of the frame, F-9) and the far interface's accept/reject answer are inputs to the "
             "model, not predicted (the answer is compared with C08's acceptance model); IEEE-754 behaviour (exact when representable, "
             "monotone) is assumed, not verified; which software raises is not predicted (an exception is an input event).",
@@ -50,7 +61,7 @@ MANIFEST = {
                  "regenerated tables and inventories and a differential rig",
     "design_ref": "5/C18",
 }
-MODULES = ["PrimaiteModel.Props.C18", "PrimaiteModel.Props.C18Accept", "PrimaiteModel.Props.C18Float"]
+MODULES = ["PrimaiteModel.Props.C18", "PrimaiteModel.Props.C18Accept", "PrimaiteModel.Props.C18Float", "PrimaiteModel.Props.C18Step", "PrimaiteModel.Props.C18Chan", "PrimaiteModel.Props.C18Body"]
 EXE = "drv_c18"
 SHRINK_PER_SIG = 2      # failing traces minimised per distinct presumptive signature
 SHRINK_WALL = 40.0      # seconds of minimisation after which further failing traces are reported unminimised
@@ -100,6 +111,7 @@ def replay(rec: dict) -> bool:
 def run(ctx: Ctx):
     with lean_lock():
         ctx.extract("Link", x_link.emit)
+        ctx.extract("LinkBody", x_body.emit)
         ctx.prove(MODULES, exes=[EXE], clean=False, leanchecker=ctx.thorough)
     ctx.oblige("rig unit = Gen.Link.bytesPerMbit", "extractor", rig.UNIT == x_link._bytes_per_mbit(), f"{rig.UNIT}")
     # the extractor's inventory of interface classes (pure ast) against the classes that exist at run time
@@ -147,18 +159,33 @@ def run(ctx: Ctx):
     for k in range(ctx.scale(8, 120)):
         cases.append((f"scn:{k}", rig.gen_scenario_case(srng, max_steps=ctx.scale(25, 60))))
     results, lines_all, bounds = [], [], []
+    unreadable: List[str] = []
     for name, case in cases:
         try:
             r = rig.run_impl(case, inv)
         except rig.InexactLoad as e:
             ctx.oblige("loads and sizes are whole byte counts (float sums exact)", "correspondence", False, f"{name}: {e}")
             r = None
+        except Exception as e:
+            # the rig failed while driving / reading the implementation (a container keyed or shaped differently, an attribute
+            # gone): a broken tie, reported as such; the other cases go on and the search decides
+            import traceback
+            tb = traceback.extract_tb(e.__traceback__)[-1]
+            unreadable.append(f"{name}: {type(e).__name__}: {e} ({tb.filename.split('/')[-1]}:{tb.lineno})")
+            r = None
+        if r is not None:
+            for pr in r.get("read_problems", []):
+                if pr not in unreadable:
+                    unreadable.append(pr)
         results.append(r)
         if r is None:
             bounds.append((len(lines_all), 0))
             continue
         bounds.append((len(lines_all), len(r["lines"]) + 1))
         lines_all += r["lines"] + ["reset"]
+    ctx.oblige("the rig reads the implementation's bookkeeping as the model assumes it (loads per link, airspace load per "
+               "frequency in hz; no case lost to an exception of the rig)", "correspondence", not unreadable,
+               "; ".join(unreadable[:4]) + (f" (+{len(unreadable) - 4} more)" if len(unreadable) > 4 else ""))
     model_all = run_driver(EXE, lines_all)
     agree = 0
     total = 0
@@ -184,6 +211,9 @@ def run(ctx: Ctx):
                     ctx.count(("wired:" if e["t"] == "S" else "wireless:") + v)
                     if e["children"]:
                         ctx.count("send-with-nested-sends")
+                    for side in ("nodeS", "nodeR"):
+                        if e.get(side) not in (None, "ON"):
+                            ctx.count(f"wired-send-while-the-{'sending' if side == 'nodeS' else 'receiving'}-node-is-{e[side]}:{v}")
                 elif e["t"] in ("E", "F"):
                     ctx.count("iface-toggle:" + ("wired" if e["t"] == "E" else "wireless"))
         # toggles that happened inside a delivery
@@ -212,6 +242,10 @@ def run(ctx: Ctx):
             caps = dict(case["topo"]["cap"])
             if "WIFI_2_4" in case["topo"]["freqs"] and caps.get(rig.ALT_NAME) != caps.get("WIFI_2_4"):
                 ctx.count("topo:wireless-two-names-different-capacities")
+        if "topo" in case and case["topo"].get("power_family"):
+            ctx.count("family:power-transitions (countdowns ticked with traffic, enable refused, same-tick disable request)")
+        if "topo" in case and case["topo"].get("aliased_channel_family"):
+            ctx.count("family:aliased-channel (two names on one hz, both send in one tick)")
         maxdepth = max(maxdepth, d)
         ctx.count(f"depth:{min(d, 6)}")
         ctx.count("topo:" + (case["topo"]["kind"] if "topo" in case else "scenario:" + case["scenario"]["file"]))
